@@ -71,3 +71,18 @@ def must_held(ctx, f, node):
 
 def fmt_locks(s):
     return "{" + ", ".join(sorted(f"{a}.{b}" for a, b in s)) + "}"
+
+
+def borrow(ctx, rule_fn, old_id: str, new_id: str, suffix: str = ""):
+    """Run a rule of another property under a new id (the clause is shared by both properties)."""
+    rule_fn(ctx)
+    if old_id in ctx.rules_applied:
+        ctx.rules_applied[new_id] = ctx.rules_applied.pop(old_id) + suffix
+        ctx.rule_counts[new_id] = ctx.rule_counts.pop(old_id, 0)
+    for o in ctx.obligations:
+        if o["rule"] == old_id:
+            o["rule"] = new_id
+    for v in ctx.violations:
+        if v.rule == old_id:
+            v.rule = new_id
+    ctx.errors = [e.replace(f"rule={old_id} ", f"rule={new_id} ") for e in ctx.errors]
